@@ -635,6 +635,12 @@ def _clone_type(type_: NamedType) -> NamedType:
         cloned.fields = [
             copy.copy(f) for f in cast(InputObjectType, type_).fields
         ]
+    elif isinstance(cloned, EnumType):
+        # Enum values are members like fields and arguments: a visitor
+        # editing one in place must not reach the source schema.
+        cloned._set_values(
+            [copy.copy(v) for v in cast(EnumType, type_).values]
+        )
     return cloned
 
 
